@@ -277,6 +277,8 @@ def r7_strict_parsing_and_fixed_paths(ctx):
 
 
 def run(ctx):
+    from . import C20 as _C20
+    _C20.r14_gauges_released_on_every_exit(ctx)     # a reload that fails leaves nothing behind that makes later reloads no-ops
     from . import effects
     effects.check_property(ctx, "C18")    # R18.E: no operation on shared protocol state outside the reviewed table
     r7_strict_parsing_and_fixed_paths(ctx)
